@@ -19,7 +19,8 @@
    The code before the repair (v1 = true) is kept and refuted (C03_multi_writer_v1_refuted). *)
 From SC Require Import Base.Prelude Resource.Impl Resource.Spec Resource.Pull Resource.ImplProofs Resource.PullProofs
   Resource.Flat Resource.FlatProofs Resource.Judge Excess.Change Excess.MergeExcess
-  Conc.Lts Conc.LtsProofs Conc.SubProofs Conc.FlatInst Conc.Judge Conc.Lossy Conc.LossyPipe Conc.LossyProofs.
+  Conc.Lts Conc.LtsProofs Conc.SubProofs Conc.FlatInst Conc.Judge Conc.Lossy Conc.LossyPipe Conc.LossyProofs
+  Conc.LossyLayerProofs.
 
 Section C03.
   Variable M : Type.
@@ -506,3 +507,151 @@ Proof.
     - destruct t'; discriminate P'. }
   congruence.
 Qed.
+
+(* ---------- subscribers WITHOUT backpressure: the CLOSED composition (Conc/LossyLayerProofs.v) ---------- *)
+Section C03LossyClosed.
+  Variable M : Type.
+  Variable m_eqb : M -> M -> bool.
+  Variable m_empty : M.
+  Variable writer : Type.
+  Variable w_validate : writer -> option Z.
+  Variable w_merge : writer -> M -> M -> M.
+  Variable rmask : Type.
+  Variable r_filter : rmask -> M -> M.
+  Variable clock_at : Z -> Z.
+  Variable str_ltb : string -> string -> bool.
+  Variable idfun : option (string -> string).
+  Hypothesis m_eqb_eq : forall a b, m_eqb a b = true -> a = b.
+  Hypothesis ltb_irrefl : forall a, str_ltb a a = false.
+  Hypothesis ltb_trans : forall a b c, str_ltb a b = true -> str_ltb b c = true -> str_ltb a c = true.
+  Hypothesis ltb_total : forall a b, str_ltb a b = false -> str_ltb b a = false -> a = b.
+  Variable prog : list (call M writer rmask).
+  Hypothesis prog_ok : forall t c, nth_error prog t = Some c -> call_ok idfun c.
+  Variable v0 : vstate M.
+  Variable c0 : cstate M.
+  Hypothesis c0_sorted : sorted str_ltb (c_items c0).
+  Variable id_tok : string -> Z.
+  Variable id_of : Z -> string.
+  Variable val_tok : M -> Z.
+  Variable val_of : Z -> option M.
+  Variable lossy_of : nat -> option (option string).
+
+  Notation run := (run m_eqb m_empty w_validate w_merge clock_at str_ltb idfun false false prog).
+  Notation lrun := (lrun r_filter None id_tok id_of val_tok val_of m_eqb m_empty w_validate w_merge clock_at str_ltb idfun
+                         false false prog lossy_of).
+  Notation s0 := (s0 prog v0 c0).
+  Notation tokview := (tokview id_tok id_of val_tok).
+
+  (* Lossy convergence as ONE theorem over programs, schedules and reader paces, like the
+     backpressured ones.  The transition system (any program, any number of overlapping writers,
+     the turnstile) with the pipelines of the subscriptions without backpressure layered on top
+     (Conc/LossyPipe.v: changesAfter's output -> C09's merger model -> Pull's goroutine -> consumer),
+     run by ANY schedule of thread steps and single consumer receives.  Once all calls have
+     returned, every pipeline of a Collection.Pull without backpressure (l) is the pipeline of
+     exactly one subscriber (u) of the transition system, with its read options, and if it is seeded:
+     in the merger's token domain
+         fold (pending in the merger) (fold (taken from the merger) (snapshot)) = the final contents,
+     what was taken from the merger is a valid edit script on the snapshot, what the consumer has
+     received ++ what Pull's goroutine is holding ++ the seeds still to come is all seeds followed by
+     the merger's output through include and the read mask; and once nothing is offered to the
+     consumer nothing is pending: it has received the seeds and an edit script from the snapshot
+     to the final contents.  Nothing is assumed about the deliveries any more: that they are a
+     chain from the snapshot (C03_deliveries_lead_from_snapshot_to_contents), that their kinds say
+     whether the item existed (C03_delivered_events_say_whether_the_item_existed), that the pipeline
+     has been handed exactly the subscriber's deliveries and `find` by thread id finds THE
+     subscriber (distinct thread ids) are invariants of the composition.  The one hypothesis about
+     the token tables: the ids of the delivered events survive the round trip (true of the judge's
+     tables: C03_judge_id_table_round_trip, C03_judge_id_table_has_the_delivered_ids). *)
+  Theorem C03_lossy_converges_for_every_program_schedule_and_pace : forall sched l,
+    let st := lrun sched (s0, []) in
+    all_done (fst st) = true -> In l (snd st) -> lossy_of (ls_tid l) = Some None ->
+    exists u, In u (st_csubs (fst st)) /\ cs_tid u = ls_tid l /\ ls_ro l = cs_ro u /\
+      (ro_updates_only (cs_ro u) = false ->
+       (forall e, In e (cs_evs u) -> id_of (id_tok (ce_id e)) = ce_id e) ->
+       let L0 := c_items (cs_at u) in
+       let X := c_items (w_c (st_w (fst st))) in
+       (forall z, Change.fold_view (pending (ls_m l)) (Change.fold_view (ls_gotm l) (tokview L0)) z = tokview X z) /\
+       valid_script (ls_gotm l) (tokview L0) = true /\
+       ls_gotc l ++ olist (ls_slot l) ++ ls_seeds l =
+         allseeds r_filter (cs_ro u) L0 ++ fmap (post r_filter None (cs_ro u)) (map (dec id_of val_of) (ls_gotm l)) /\
+       (ls_slot l = None ->
+        (forall z, Change.fold_view (ls_gotm l) (tokview L0) z = tokview X z) /\
+        ls_gotc l = allseeds r_filter (cs_ro u) L0 ++ fmap (post r_filter None (cs_ro u)) (map (dec id_of val_of) (ls_gotm l)) /\
+        queue (ls_m l) = [])).
+  Proof.
+    exact (lossy_layer_converges m_eqb m_empty w_validate w_merge r_filter clock_at str_ltb idfun m_eqb_eq ltb_irrefl
+             ltb_trans ltb_total prog prog_ok v0 c0 c0_sorted id_tok id_of val_tok val_of lossy_of).
+  Qed.
+
+  (* ... and for "a reader that keeps receiving" (LossyPipe.drained = the judge's and the harness's
+     "receive until nothing is offered"; finitely many receives): after it nothing is offered, nothing
+     is pending in the merger, and what the consumer has received is all seeds followed by a valid
+     edit script from the snapshot to the final contents, passed through include and the read mask *)
+  Theorem C03_lossy_reader_that_keeps_receiving_converges : forall sched l,
+    let st := lrun sched (s0, []) in
+    all_done (fst st) = true -> In l (snd st) -> lossy_of (ls_tid l) = Some None ->
+    exists u, In u (st_csubs (fst st)) /\ cs_tid u = ls_tid l /\
+      (ro_updates_only (cs_ro u) = false ->
+       (forall e, In e (cs_evs u) -> id_of (id_tok (ce_id e)) = ce_id e) ->
+       let L0 := c_items (cs_at u) in
+       let X := c_items (w_c (st_w (fst st))) in
+       let l' := drained r_filter None id_of val_of l in
+       ls_slot l' = None /\ queue (ls_m l') = [] /\
+       (forall z, Change.fold_view (ls_gotm l') (tokview L0) z = tokview X z) /\
+       valid_script (ls_gotm l') (tokview L0) = true /\
+       ls_gotc l' = allseeds r_filter (cs_ro u) L0 ++ fmap (post r_filter None (cs_ro u)) (map (dec id_of val_of) (ls_gotm l'))).
+  Proof.
+    exact (lossy_layer_converges_reader_keeps_receiving m_eqb m_empty w_validate w_merge r_filter clock_at str_ltb idfun
+             m_eqb_eq ltb_irrefl ltb_trans ltb_total prog prog_ok v0 c0 c0_sorted id_tok id_of val_tok val_of lossy_of).
+  Qed.
+
+  (* every event a subscriber is ever delivered says by its kind whether the item existed: an ADD
+     carries no old value, an UPDATE / REMOVE carries one (what C09's merge algebra relies on) *)
+  Theorem C03_delivered_events_say_whether_the_item_existed : forall sched u,
+    In u (st_csubs (run sched s0)) ->
+    Forall (fun e => match ce_kind e with KAdd => ce_old e = None | _ => ce_old e <> None end) (cs_evs u).
+  Proof.
+    exact (deliveries_kinds_wf m_eqb m_empty w_validate w_merge r_filter clock_at str_ltb idfun m_eqb_eq ltb_irrefl
+             ltb_trans ltb_total prog prog_ok v0 c0 c0_sorted).
+  Qed.
+End C03LossyClosed.
+Print Assumptions C03_lossy_converges_for_every_program_schedule_and_pace.
+Print Assumptions C03_lossy_reader_that_keeps_receiving_converges.
+Print Assumptions C03_delivered_events_say_whether_the_item_existed.
+
+(* the judge's id table (the ids the run's deliveries mention, by position) satisfies the hypothesis *)
+Theorem C03_judge_id_table_round_trip : forall it id, In id it -> id_at it (tok_id it id) = id.
+Proof. exact judge_ids_round_trip. Qed.
+Theorem C03_judge_id_table_has_the_delivered_ids : forall (s : state fmsg (list fld)) u e,
+  In u (st_csubs s) -> In e (cs_evs u) -> In (ce_id e) (tbl_ids s).
+Proof. exact judge_table_has_delivered_ids. Qed.
+Print Assumptions C03_judge_id_table_round_trip.
+Print Assumptions C03_judge_id_table_has_the_delivered_ids.
+
+(* the hypotheses are satisfiable by a non-trivial run: ONE writer Delete a; Add a; Delete a, a seeded
+   Pull without backpressure whose consumer receives twice (the seeds) and is then behind; with the
+   judge's tables: all calls returned, one pipeline, one subscriber, three deliveries whose ids
+   survive the round trip, two changes received and one (the REPLACE) held by Pull's goroutine *)
+Example C03_nonvacuous_lossy_closed_composition :
+  let cprog := map to_call del_add_del in
+  let ss := classify del_add_del (fun _ => O) [3; 3; 0; 0; 1; 1; 1; 3; 2; 2]%nat in
+  let s00 := s0 cprog (init_v None) (init_c ab_init) in
+  let splain := run fmsg_eqb fzero fw_validate fw_merge fclock str_ltb None false false cprog (threads_of ss) s00 in
+  let it := tbl_ids splain in
+  let vt := tbl_vals splain in
+  let st := lrun fr_filter None (tok_id it) (id_at it) (tok_val vt) (val_at vt) fmsg_eqb fzero fw_validate fw_merge fclock
+                 str_ltb None false false cprog (lossy_of_prog None del_add_del) ss (s00, []) in
+  all_done (fst st) = true /\
+  match snd st, st_csubs (fst st) with
+  | [l], [u] =>
+      lossy_of_prog None del_add_del (ls_tid l) = Some None /\ cs_tid u = ls_tid l /\
+      ro_updates_only (cs_ro u) = false /\ List.length (cs_evs u) = 3%nat /\
+      (forall e, In e (cs_evs u) -> id_at it (tok_id it (ce_id e)) = ce_id e) /\
+      List.length (ls_gotc l) = 2%nat /\ ls_slot l <> None
+  | _, _ => False
+  end.
+Proof.
+  vm_compute. split; [reflexivity|]. repeat split; try discriminate.
+  intros e [<-|[<-|[<-|[]]]]; reflexivity.
+Qed.
+
